@@ -86,7 +86,10 @@ def run_(ctx, model):
         out = ctx.path('adv.sgz')
         with symcodec.symbolic_decoder():
             try:
-                with SgzConverter(fi.path) as c:
+                # (every third file through a converter that loads the data section when it opens: preload=True)
+                desc['preload'] = preload = bool(k % 3 == 1)
+                ctx.stats['preload_' + str(preload)] += 1
+                with SgzConverter(fi.path, preload=preload) as c:
                     pre = k % 4
                     desc['reads_before_reblock'] = ['none', 'gen_trace_header', 'read_variant_headers(subset)',
                                                     'gen_trace_header(load_all)'][pre]
